@@ -2211,6 +2211,82 @@ def expand_constant_dicts(fnode):
 
 
 # --------------------------------------------------------------------------------------------------- forward propagation
+def _nonnull_call(c):
+    from .inliner import _nonnull_expr
+    return _nonnull_expr(c)
+
+
+def sink_optional_uses_into_arms(fnode, counter):
+    """if a: v = E1 elif b: v = None else: v = E2     followed by statements that mention v (typically `if v is not None: use(v)`)
+    ->  the statements up to the last mention of v are moved into every arm, where `v is None` is then decided arm by arm.
+    Exclusive arms, the moved statements ran right after them: plain code motion.  Only when some arm binds None (otherwise nothing is
+    gained) and v is bound nowhere else."""
+    changed = False
+
+    def arms_of(st):
+        arms = [st.body]
+        n = st
+        while len(n.orelse) == 1 and isinstance(n.orelse[0], ast.If):
+            n = n.orelse[0]
+            arms.append(n.body)
+        if not n.orelse:
+            return None
+        arms.append(n.orelse)
+        return arms
+
+    def rewrite(stmts):
+        nonlocal changed
+        for owner in stmts:
+            for fld in ("body", "orelse", "finalbody"):
+                sub = getattr(owner, fld, None)
+                if isinstance(sub, list) and sub and isinstance(sub[0], ast.stmt) and not isinstance(owner, (ast.FunctionDef, ast.AsyncFunctionDef, ast.ClassDef)):
+                    setattr(owner, fld, rewrite(sub))
+        for i, st in enumerate(stmts):
+            if not isinstance(st, ast.If) or i + 1 >= len(stmts):
+                continue
+            arms = arms_of(st)
+            if arms is None or any(a and isinstance(a[-1], (ast.Return, ast.Raise, ast.Continue, ast.Break)) for a in arms):
+                continue
+            cands = None
+            for a in arms:
+                last = a[-1] if a else None
+                here = {last.targets[0].id} if isinstance(last, ast.Assign) and len(last.targets) == 1 and isinstance(last.targets[0], ast.Name) else set()
+                cands = here if cands is None else cands & here
+            for v in sorted(cands or ()):
+                if not any(isinstance(a[-1].value, ast.Constant) and a[-1].value.value is None for a in arms):
+                    continue
+                n_binds = sum(1 for x in ast.walk(fnode) if isinstance(x, ast.Name) and x.id == v and isinstance(x.ctx, (ast.Store, ast.Del)))
+                if n_binds != len(arms):
+                    continue
+                tail = stmts[i + 1:]
+                last_use = max((j for j, t in enumerate(tail) if any(isinstance(x, ast.Name) and x.id == v for x in ast.walk(t))), default=None)
+                if last_use is None:
+                    continue
+                inside = {id(x) for t in [st] + tail for x in ast.walk(t)}
+                if any(isinstance(x, ast.Name) and x.id == v and id(x) not in inside for x in ast.walk(fnode)):
+                    continue
+                region = tail[:last_use + 1]
+                if any(isinstance(x, (ast.Return, ast.Break, ast.Continue, ast.Yield, ast.YieldFrom)) for t in region for x in ast.walk(t)):
+                    continue
+                if sum(len(list(ast.walk(t))) for t in region) > 400:
+                    continue
+                for a in arms:
+                    a.extend(copy.deepcopy(t) for t in region)
+                changed = True
+                return stmts[:i + 1] + tail[last_use + 1:]
+        return stmts
+    for _ in range(4):
+        before = changed
+        changed = False
+        fnode.body = rewrite(fnode.body)
+        if not changed:
+            changed = before
+            break
+    if changed:
+        ast.fix_missing_locations(fnode)
+    return changed
+
+
 def forward_none_tests(stmts, known=None):
     """walk a statement list top-down remembering which names hold None / a non-None value, and decide `x is None` /
     `x is not None` tests that follow (straight-line only: loops and tries forget what they assign)"""
@@ -2251,6 +2327,8 @@ def forward_none_tests(stmts, known=None):
                     (isinstance(st.value, ast.Constant) and st.value.value is not None):
                 # arithmetic, displays and constants are not None; calls / subscripts / attributes may be: only trust the safe ones
                 if isinstance(st.value, (ast.BinOp, ast.List, ast.Tuple, ast.Dict, ast.ListComp, ast.Compare)) or isinstance(st.value, ast.Constant):
+                    known[nm] = False
+                elif isinstance(st.value, ast.Call) and _nonnull_call(st.value):
                     known[nm] = False
                 else:
                     known.pop(nm, None)
@@ -2299,9 +2377,17 @@ def forward_none_tests(stmts, known=None):
             changed = changed or t.hit
             out.append(new)
             continue
+        if isinstance(st, (ast.For, ast.AsyncFor, ast.While, ast.With, ast.AsyncWith)):
+            # inside a loop / with body: what is known about names the statement does not bind anywhere stays known; the body's own
+            # straight-line knowledge starts from there (each iteration starts from the same facts)
+            stored_in = {x.id for x in ast.walk(st) if isinstance(x, ast.Name) and isinstance(x.ctx, (ast.Store, ast.Del))}
+            inner_known = {k: v for k, v in known.items() if k not in stored_in}
+            st.body, c1 = forward_none_tests(st.body, inner_known)
+            changed = changed or c1
+            if getattr(st, "orelse", None):
+                st.orelse, c2 = forward_none_tests(st.orelse, inner_known)
+                changed = changed or c2
         kill(st)
-        for x in ast.walk(st):          # a call could rebind nothing local, but nested statements may
-            pass
         out.append(st)
     return out, changed
 
@@ -2771,6 +2857,9 @@ def partial_evaluate(repo, max_rounds=8):
             if steps and propagate_constants_straightline(f.node):
                 ch = True
                 steps.append("constants-in-order")
+            if (steps or q in getattr(repo, "inlined", {})) and sink_optional_uses_into_arms(f.node, counter):
+                ch = True
+                steps.append("optionals-per-arm")
             if sink_callable_uses_into_arms(f.node, counter):
                 ch = True
                 steps.append("callables-per-arm")
